@@ -383,8 +383,8 @@ func (c *Ctx) deriveShaCoverage() {
 	}
 	key := fnName(fn) + "/every list index is inserted into the root"
 	type loop struct {
-		start int64
-		upper int64 // inclusive constant upper bound, -1 = only bounded by Len
+		start   int64
+		upper   int64 // inclusive constant upper bound, -1 = only bounded by Len
 		usesLen bool
 	}
 	var loops []loop
